@@ -518,6 +518,10 @@ func (c *Cursor) Filter(ctx context.Context, idxStr string, val []interface{}) e
 	return res
 }
 
+func (c *Cursor) IsKeyColumn(i int) bool {
+	return i == c.t.KeyCol
+}
+
 func (c *Cursor) Rowid() (int64, error) {
 	return 0, errors.New("rowid: invalid for WITHOUT ROWID table")
 }
